@@ -137,6 +137,8 @@ def replay_file(path: str, family: str, trace_module: str) -> int:
     if site == "spec":
         print("replay: specification-level counterexample; rerun the check")
         return 2
+    if site == "multi-cell":
+        return _replay_multi(sig, rep)
     hdr = rep["hdr"]
     try:
         run = Run(hdr)
@@ -176,9 +178,62 @@ def replay_file(path: str, family: str, trace_module: str) -> int:
     return 0
 
 
+def _replay_multi(sig: dict, rep: dict) -> int:
+    """Re-execute a recorded several-cells-on-one-trainer violation: same headers, spike histories, per-step signal,
+    scale, `cells` selection and delays; the recorded expectation is compared at the recorded step and cell."""
+    import torch
+    from ..impl_stdp import MultiRun
+    hdrs, steps = rep["hdrs"], rep.get("steps")
+    if steps is None:
+        try:
+            MultiRun(hdrs, via=rep["via"])
+        except Exception as ex:
+            print(f"replay: the implementation raises {ex!r}")
+            return 1
+        print("replay: no exception")
+        return 0
+    n, T = len(hdrs), len(rep["pre"][0])
+    guards = bool(sig.get("guards")) and not hdrs[0].get("shared")
+    dropped = None
+    outs = None
+    try:
+        run = MultiRun(hdrs, via=rep["via"])
+        xs, ys = rep["pre"], rep["post"]
+        for t0, st in enumerate(steps):
+            if t0 == T:
+                run.trainer.clear(keepshape=True)
+                for lay in ([run.biclique] if run.shared else run.layers):
+                    lay.clear()
+                xs, ys = rep["pre2"], rep["post2"]
+            t = t0 % T
+            if guards and t == 1:
+                dropped = n - 1
+                run.layers[1].cell.eval()
+                del run.layers[dropped].connection.updater
+            for j in range(1 if run.oneconn else n):
+                if st["d"][j] is not None:
+                    run.set_delay(st["d"][j], j)
+            run.forward_layers([(torch.tensor([[bool(xs[j][t])]]), torch.tensor([[bool(ys[j][t])]])) for j in range(n)])
+            run.train(st["r"] * st["unit"], st["scale"], st["cells"])
+            outs = [run.read(0)] if run.oneconn else [None if j == dropped else run.read(j) for j in range(n)]
+    except Exception as ex:
+        print(f"replay: the implementation raises {ex!r}")
+        return 1
+    exp, j = rep.get("expected"), rep.get("cell")
+    if j == "sum":
+        j = 0
+    if not isinstance(exp, dict) or j is None or outs is None or outs[j] is None:
+        print("replay: no exception")
+        return 0
+    last = (float(outs[j][0].reshape(-1)[0]), float(outs[j][1].reshape(-1)[0]))
+    print(f"replay: cell {j}: observed (pos, neg) at the recorded step = {last}, expected = {exp}")
+    return 0 if (compare(exp["pos"], last[0]) and compare(exp["neg"], last[1])) else 1
+
+
 # ----------------------------------------------------------------- several cells, one trainer
 def multi_cells(chk: Check, mm: Mismatch, *, variant: str, hdrs: list, via: str, T: int, rng: random.Random,
-                three: bool, dyadic: bool, expect, params, delay_of=None, guards: bool = False, on_edge=None):
+                three: bool, dyadic: bool, expect, params, delay_of=None, guards: bool = False, on_edge=None,
+                dense: bool = False):
     """Two or three 1x1 cells with DIFFERENT hyperparameters trained by ONE trainer (per-cell
     register_cell overrides): every cell must follow the specification with its own
     hyperparameters (no state or hyperparameter leaks between cells).  Three-factor rules are
@@ -193,10 +248,18 @@ def multi_cells(chk: Check, mm: Mismatch, *, variant: str, hdrs: list, via: str,
     from ..impl_stdp import MultiRun
     n = len(hdrs)
     sig = {"site": "multi-cell", "rule": variant, "via": via, "guards": guards}
-    xs = [tuple(rng.randint(0, 1) for _ in range(T)) for _ in range(n)]
-    ys = [tuple(rng.randint(0, 1) for _ in range(T)) for _ in range(n)]
+    # dense: spikes at three steps in four, a non-zero reward, rarely a `cells` selection - the short histories that tell
+    # hyperparameters apart (several earlier partners for a spike to pair with)
+    bit = (lambda: int(rng.random() < 0.75)) if dense else (lambda: rng.randint(0, 1))
+    xs = [tuple(bit() for _ in range(T)) for _ in range(n)]
+    ys = [tuple(bit() for _ in range(T)) for _ in range(n)]
     shared = bool(hdrs[0].get("shared"))
-    if shared:
+    oneconn = hdrs[0].get("shared") == "conn"
+    if oneconn:
+        xs = [xs[0]] * n                  # one connection: the cells see the same presynaptic spikes ...
+        guards = False
+        sig["shared"] = "conn"            # ... and accumulate into the one updater
+    elif shared:
         ys = [ys[0]] * n                  # one neuron group: the cells see the same postsynaptic spikes
         guards = False
         sig["shared"] = True
@@ -221,9 +284,11 @@ def multi_cells(chk: Check, mm: Mismatch, *, variant: str, hdrs: list, via: str,
             except Exception as e:
                 mm.add(dict(sig, clause="Raised", where="clear", exc=type(e).__name__), dict(rep, error=repr(e)))
                 return edges
-            xs = [tuple(rng.randint(0, 1) for _ in range(T)) for _ in range(n)]
-            ys = [tuple(rng.randint(0, 1) for _ in range(T)) for _ in range(n)]
-            if shared:
+            xs = [tuple(bit() for _ in range(T)) for _ in range(n)]
+            ys = [tuple(bit() for _ in range(T)) for _ in range(n)]
+            if oneconn:
+                xs = [xs[0]] * n
+            elif shared:
                 ys = [ys[0]] * n
             rep["pre2"], rep["post2"] = xs, ys
         t0, t = t, t % T
@@ -232,27 +297,47 @@ def multi_cells(chk: Check, mm: Mismatch, *, variant: str, hdrs: list, via: str,
             run.layers[evald].cell.eval()
             del run.layers[dropped].connection.updater
         inputs = [(torch.tensor([[bool(xs[j][t])]]), torch.tensor([[bool(ys[j][t])]])) for j in range(n)]
-        r = rng.choice((-1, 0, 1, 2)) if three else 1
+        r = rng.choice((-1, 1, 2) if dense else (-1, 0, 1, 2)) if three else 1
         unit = rng.choice([1.0, 0.7]) if three and not dyadic else 1.0
         scale = rng.choice([1.0, 0.5, -0.5]) if three else 1.0    # documented: the absolute value of the scale is used
         sel = None
-        if three and rng.random() < 0.4:
+        if three and rng.random() < (0.15 if dense else 0.4):
             sel = [run.names[rng.randrange(n)]]
         ds = [None] * n
         if delay_of:
             for j in range(n):
-                ds[j] = delay_of(j, t)
-                if ds[j] is not None:
+                ds[j] = ds[0] if (oneconn and j) else delay_of(j, t)
+                if ds[j] is not None and not (oneconn and j):
                     run.set_delay(ds[j], j)
         steps.append({"r": r, "unit": unit, "scale": scale, "cells": sel, "d": ds})
         try:
             run.forward_layers(inputs)
             run.train(r * unit, scale, sel)
-            outs = [None if j == dropped else run.read(j) for j in range(n)]
+            outs = [run.read(0)] if oneconn else [None if j == dropped else run.read(j) for j in range(n)]
         except Exception as e:
             mm.add(dict(sig, clause="Raised", where="step", exc=type(e).__name__),
                    dict(rep, steps=steps, t=t, error=repr(e)))
             return edges
+        if oneconn:
+            # the one updater holds the SUM of the listed cells' contributions, each with its own hyperparameters
+            alts_v = [(0.0, 0.0)]
+            for j in range(n):
+                if sel is not None and run.names[j] not in sel:
+                    continue
+                P = params(j, unit * abs(scale))
+                cell_alts = [evaluate(b, P) for b in expect(j, xs[j], ys[j], t, r, ds[j])]
+                alts_v = [(p + a, q + b) for p, q in alts_v for a, b in cell_alts]
+                if on_edge:
+                    on_edge(j, xs[j], ys[j], t, r, ds[j])
+                edges += 1
+            gp, gn = float(outs[0][0].reshape(-1)[0]), float(outs[0][1].reshape(-1)[0])
+            if not any(compare(p, gp) and compare(q, gn) for p, q in alts_v):
+                p, q = alts_v[0]
+                mm.add(dict(sig, clause="PosOK" if not compare(p, gp) else "NegOK", cell="sum", unlisted=False),
+                       dict(rep, steps=steps, t=t, cell="sum", expected={"pos": p, "neg": q},
+                            observed={"pos": gp, "neg": gn}))
+                return edges
+            continue
         for j in range(n):
             if j == dropped or j == evald:
                 continue                      # skipped by the trainer's guard: only "no exception" is required
